@@ -113,7 +113,10 @@ def add(world, hook_assumed=True):
         a = cx.args['self']
         return [('line-logged', cx.new(a).g_in == z3.Concat(cx.old(a).g_in, cx.a('line'), DELIM))]
 
+    from txdbus import protocol as _protocol
+    MAXLINE = _protocol.BasicDBusProtocol.MAX_AUTH_LENGTH
     contract(world, 'iface.IAuth.handleAuthMessage', {'self': Ref(A), 'line': BYTES}, fn=handleAuthMessage,
+             requires=lambda cx: [('line-at-most-16KiB', z3.Length(cx.a('line')) <= 16384)] if MAXLINE == 16384 else [('limit-is-16KiB', z3.BoolVal(False))],
              modifies=lambda cx: [(cx.args['self'], A + '.g_in'), (cx.args['self'], A + '.g_ok'), ('*', T + '.g_out')],
              ensures=handled, raises={DBusAuthenticationFailed: lambda cx: z3.BoolVal(True)},
              raises_post={DBusAuthenticationFailed: handled}, assumed=True)
@@ -171,6 +174,12 @@ def add(world, hook_assumed=True):
             ('binary:frame', z3.Implies(o._authenticated, cx.unchanged('IAuth.g_in', 'IAuth.g_ok', T + '.g_closed', T + '.disconnecting'))),
             ('handshake:stream', z3.Implies(z3.And(z3.Not(o._authenticated), z3.Not(trn.g_closed)),
                                             total(n, cx.new(a0)) == z3.Concat(total(o, cx.old(a0)), data_eff(cx)))),
+            ('handshake:first-byte-must-be-NUL',
+             z3.Implies(z3.And(z3.Not(o._authenticated), z3.Not(o._client), o._firstByte,
+                               z3.StrToCode(z3.SubString(cx.a('data'), 0, 1)) != 0),
+                        z3.And(trn.g_closed, z3.Not(n._authenticated)))),
+            ('handshake:oversized-pending-line-closes',
+             z3.Implies(z3.And(z3.Not(o._authenticated), z3.Not(n._authenticated), z3.Length(n._buffer) > 16384), trn.g_closed)),
             ('handshake:only-when-authenticator-succeeded',
              z3.Implies(z3.And(z3.Not(o._authenticated), n._authenticated), cx.new(a0).g_ok)),
             ('handshake:line-mode-inv', z3.Implies(z3.Not(n._authenticated),
